@@ -70,6 +70,19 @@ def setup(ctx):
     install(single.MarkerExpression, "_evaluate", post_eval)
 
 
+class _StrText(str):
+    """A plain str subclass."""
+
+
+def _PARSE_PARAM(M):
+    import inspect
+
+    try:
+        return next(iter(inspect.signature(M.parse_marker).parameters))
+    except Exception:  # noqa: BLE001
+        return "marker"
+
+
 def _one_text(ctx, text, context="metadata", envs=None):
     M, single = MM.classes()
     with oracle():
@@ -79,7 +92,15 @@ def _one_text(ctx, text, context="metadata", envs=None):
             ctx.inconclusive["text-rejected-by-packaging"] += 1
             return
     try:
-        m = M.parse_marker(text)
+        form = ctx.cases % 11
+        if form == 3:
+            m = M.parse_marker(**{_PARSE_PARAM(M): text})      # by keyword (the documented parameter name)
+            ctx.shape("call-form:keyword")
+        elif form == 7:
+            m = M.parse_marker(_StrText(text))                 # an instance of a str subclass
+            ctx.shape("call-form:str-subclass")
+        else:
+            m = M.parse_marker(text)
     except CaseTimeout:
         raise
     except Exception as e:  # noqa: BLE001
@@ -235,10 +256,32 @@ def _lock_file(ctx):
                  "dependency_groups": set(rnd.sample(["a", "b", "foo-bar", "c.d", "zz"], rnd.randint(0, 2))),
                  "python_full_version": rnd.choice(MW.FULLS)}
             e["python_version"] = ".".join(e["python_full_version"].split(".")[:2])
+            # partial environments: the caller supplies only one of the two set-valued keys (or neither); the
+            # context's defaults fill in the rest
+            k = rnd.random()
+            if k < 0.2:
+                del e["extras"]
+                ctx.shape("lock-file:partial-environment")
+            elif k < 0.4:
+                del e["dependency_groups"]
+                ctx.shape("lock-file:partial-environment")
+            elif k < 0.47:
+                del e["extras"], e["dependency_groups"]
             envs.append(e)
         ctx.cases += 1
         ctx.current_case = {"kind": "text", "text": t, "stratum": "main", "context": "lock_file"}
         ctx.guarded(5.0, _one_text, ctx, t, "lock_file", envs)
+        if i % 5 == 0:
+            # the same texts under the other contexts, with whatever subset of the special keys the caller passes
+            for context in ("metadata", "requirement"):
+                envs2 = []
+                for e in envs[:4]:
+                    e2 = {k: v for k, v in e.items() if k not in ("extras", "dependency_groups") or rnd.random() < 0.6}
+                    if rnd.random() < 0.5:
+                        e2["extra"] = rnd.choice(["", "a", "foo-bar"])
+                    envs2.append(e2)
+                ctx.current_case = {"kind": "text", "text": t, "stratum": "main", "context": context}
+                ctx.guarded(5.0, _one_text, ctx, t, context, envs2)
 
 
 def _tree_as_text(t):
